@@ -318,6 +318,7 @@ def check_lookaside(ctx, model):
             ": all instances share one table although the key leaves out what "
             "an instance was constructed with" if shared else
             "CachedMapper.__init__ no longer creates self._cache"))
+    _tables_created_fresh(ctx, model, cm, {"_cache"}, "CachedMapper")
     mem = cm.members.get("__call__")
     if mem is None or mem.kind != "func":
         raise AnalysisError("CachedMapper.__call__ not found")
@@ -556,6 +557,48 @@ def check_cse_mixin(ctx, model):
            "the instance was constructed with -- a second differentiation with "
            "respect to another variable, or a second evaluation in another "
            "context, gets the first one's results")
+    _tables_created_fresh(ctx, model, mx, tables, "cse-mixin")
+
+
+def _tables_created_fresh(ctx, model, family, tables, tag):
+    """every place in the package that binds a look-aside table of a memoizing
+    family to an instance binds a container made there and then: a value
+    fetched from module- or class-level state (directly, or an entry of it) is
+    shared by all instances that fetch the same entry, and the table's key
+    leaves out what the instance was constructed with"""
+    shared = []
+    n_sites = 0
+    for c in model.classes.values():
+        if not (c is family or model.is_subclass(c, family)):
+            continue
+        for name, mem in c.members.items():
+            if mem.kind != "func":
+                continue
+            for n in ast.walk(mem.node):
+                if isinstance(n, ast.Assign):
+                    tgts = n.targets
+                elif isinstance(n, ast.AnnAssign) and n.value is not None:
+                    tgts = [n.target]
+                else:
+                    continue
+                for t in tgts:
+                    if isinstance(t, ast.Attribute) and isinstance(
+                            t.value, ast.Name) and t.value.id == "self" and \
+                            t.attr in tables:
+                        n_sites += 1
+                        if not _is_mutable_literal(n.value):
+                            shared.append((c, name, t.attr, n))
+    for c, name, attr, n in shared:
+        ctx.ob(f"O/{tag}/table-created-fresh:{c.name}.{name}", False,
+               c.module.loc(n),
+               f"{c.name}.{name} binds self.{attr} to {ast.unparse(n.value)[:80]}"
+               ", which is not a container made on the spot: instances that get "
+               "the same object share one table, although its key holds only "
+               "the node and the extra arguments, not what each instance was "
+               "constructed with (flags, function table, context)")
+    if not shared:
+        ctx.ob(f"O/{tag}/table-created-fresh", n_sites > 0, family.loc(),
+               f"{n_sites} sites bind {sorted(tables)}; each creates the container")
 
 
 def _is_mutable_literal(v):
